@@ -10,8 +10,8 @@
 
 /* C++ exceptions (rule R9/R14): ghost flag + early return */
 int verif_thrown;
-#define VERIF_THROW() do { verif_thrown = 1; return VERIF_DUMMY_RET; } while (0)
-#define VERIF_PROPAGATE() do { if (verif_thrown) return VERIF_DUMMY_RET; } while (0)
+#define VERIF_THROW() { verif_thrown = 1; return VERIF_DUMMY_RET; }
+#define VERIF_PROPAGATE() { if (verif_thrown) return VERIF_DUMMY_RET; }
 
 /* library assert (rule R15): obligation in the debug flavour, removed by -DNDEBUG like <cassert> */
 #undef assert
